@@ -107,3 +107,54 @@ class ExternMixin:
                 r = us % 1000
                 return VI(z3.If(r < 500, q, z3.If(r > 500, q + 1, z3.If(q % 2 == 0, q, q + 1))))
         return super().bi_round(args, kw, node)
+
+    # ---------------------------------------------------------------- X-RE: regular expressions
+    SPEC_LANGS = {'hc_name_ok': ('[A-Z0-9_-]+', 'fullmatch')}     # languages named by the specification (property C17's own text)
+    _lang_cache = {}
+
+    def lang_symbol(self, pattern, method):
+        """uninterpreted predicate for the language of (pattern, method); two pairs get the SAME predicate iff z3 proves their
+        languages equal (decided on z3's string theory, independent of the function VCs)"""
+        from . import regex
+        key = (pattern, method)
+        if key in ExternMixin._lang_cache:
+            return self.ufunc(ExternMixin._lang_cache[key], SEQ, BOOL)
+        name = None
+        for sname, (sp, sm) in self.SPEC_LANGS.items():
+            try:
+                eq = regex.equivalent(pattern, method, sp, sm)
+            except ValueError as e:
+                raise Unsupported(f'regular expression {pattern!r}: {e}')
+            if eq is None:
+                raise Unsupported(f'regular expression equivalence undecided for {pattern!r}')
+            if eq:
+                name = 'lang_' + sname
+        if name is None:
+            import hashlib
+            name = 'lang_' + hashlib.sha1(repr(key).encode()).hexdigest()[:10]
+        ExternMixin._lang_cache[key] = name
+        return self.ufunc(name, SEQ, BOOL)
+
+    def bi_enum_member(self, args, kw, node):
+        return VB(self.ufunc('enum_member_' + args[0].t, SEQ, BOOL)(self.as_seq(args[1])))
+
+    def bi_hc_name_ok(self, args, kw, node):
+        return VB(self.ufunc('lang_hc_name_ok', SEQ, BOOL)(self.as_seq(args[0])))
+
+    def ext_re_compile(self, args, kw, node):
+        if args[0].k != 'const':
+            raise Unsupported('re.compile of a symbolic pattern')
+        return SV('const', ('regex', args[0].t))
+
+    externals = {'re.compile': lambda self, args, kw, node: self.ext_re_compile(args, kw, node)}
+
+    def call_builtin_method(self, recv, name, args, kw, node):
+        if recv.k == 'const' and isinstance(recv.t, tuple) and recv.t and recv.t[0] == 'regex' and name in ('fullmatch', 'match', 'search'):
+            s = args[0]
+            if not self.is_str_like(s):
+                raise PyRaise('TypeError')
+            pred = self.lang_symbol(recv.t[1], name)
+            if self.branch(pred(self.as_seq(s))):
+                return SV('const', ('match-object',))
+            return NONE
+        return super().call_builtin_method(recv, name, args, kw, node)
